@@ -6,8 +6,8 @@
 (* untouched, point faults local, every goroutine gone, stop returned.      *)
 EXTENDS Containment, TraceCommon
 
-VARIABLES l, armed     \* armed: a Scenario was consumed and the model may run
-tvars == <<vars, l, armed>>
+VARIABLES l, armed, race     \* armed: a Scenario was consumed and the model may run; race: the victim may be stopped early
+tvars == <<vars, l, armed, race>>
 
 Ln == Trace[l]
 IsEv(e) == l <= Len(Trace) /\ Ln.ev = e /\ l' = l + 1
@@ -32,13 +32,17 @@ TrInit ==
     /\ delivered = [t \in Tasks |-> <<>>]
     /\ errs = [t \in Tasks |-> 0]
     /\ written = 0 /\ fault = NoFault /\ fired = FALSE
-    /\ l = 1 /\ armed = FALSE /\ HWInit
+    /\ l = 1 /\ armed = FALSE /\ race = FALSE /\ HWInit
 
-TrReset == IsEv("Reset") /\ Idle(NoFault) /\ armed' = FALSE
+TrReset == IsEv("Reset") /\ Idle(NoFault) /\ armed' = FALSE /\ race' = FALSE
+(* "stoprace": no fault; the victim is stopped at an arbitrary moment between writes (delFork and  *)
+(* forkPoint exclude each other, so the stop is atomic w.r.t. a Write).  "share": no fault; the     *)
+(* victim rewrites data it shares with the bystander, which must not notice.                       *)
+FaultOf(ln) == IF ln.kind \in {"stoprace", "share"} THEN NoFault ELSE [node |-> ln.node, kind |-> ln.kind, at |-> ln.at]
 TrScenario ==
     /\ IsEv("Scenario") /\ ~armed /\ Ln.n = MaxPoints
-    /\ Idle([node |-> Ln.node, kind |-> Ln.kind, at |-> Ln.at])
-    /\ armed' = TRUE
+    /\ Idle(FaultOf(Ln))
+    /\ armed' = TRUE /\ race' = (Ln.kind = "stoprace")
 
 Terminal == ~alive \/ \A t \in Tasks : AllExited(t)
 TrOutcome ==
@@ -50,12 +54,19 @@ TrOutcome ==
         /\ Ln.vErrs = errs["v"]
         /\ Ln.vNodeFailed = (\E i \in Nodes : nst["v"][i] = "failed")
         /\ Ln.bNodeFailed = FALSE
+        /\ Get(Ln, "bTagsOK", TRUE) = TRUE    \* the bystander never sees data the victim rewrote
         /\ Ln.writeBlocked = FALSE     \* ingestion is never blocked by a dead task (Write stays enabled) ...
         /\ Ln.bFlood = Ln.flood        \* ... and the bystander receives every further point
         /\ Ln.stopReturned = TRUE      \* AllTerminate: StopTask returns ...
         /\ Ln.leaked = 0                \* ... and no pipeline goroutine is left
     /\ armed' = FALSE
-    /\ UNCHANGED vars
+    /\ UNCHANGED <<vars, race>>
+
+(* StopTask(victim) at any moment: its fork edge is closed, later writes no longer reach it. *)
+StopVictim ==
+    /\ armed /\ race /\ alive /\ edge["v"][1].st = "open"
+    /\ edge' = [edge EXCEPT !["v"][1].st = "closed"]
+    /\ UNCHANGED <<alive, nst, accepted, delivered, errs, written, fault, fired, l, armed, race>>
 
 (* Definitions (driver c05define): offering a script / lambda to the daemon is an *)
 (* action whose only outcomes are "task" or "error"; it never takes the process  *)
@@ -64,15 +75,15 @@ TrDefineBatch ==
     /\ IsEv("DefineBatch") /\ ~armed /\ alive
     /\ Ln.panics = 0 /\ Ln.hangs = 0
     /\ Ln.n = Ln.tasks + Ln.errors
-    /\ UNCHANGED <<vars, armed>>
+    /\ UNCHANGED <<vars, armed, race>>
 TrGoroutines ==
     /\ IsEv("Goroutines") /\ ~armed /\ alive
     /\ Ln.after <= Ln.before + 2
-    /\ UNCHANGED <<vars, armed>>
+    /\ UNCHANGED <<vars, armed, race>>
 
-TrSilent == armed /\ Next /\ UNCHANGED <<l, armed>>
+TrSilent == armed /\ Next /\ UNCHANGED <<l, armed, race>>
 
-TrNext == TrReset \/ TrScenario \/ TrOutcome \/ TrDefineBatch \/ TrGoroutines \/ TrSilent
+TrNext == TrReset \/ TrScenario \/ TrOutcome \/ TrDefineBatch \/ TrGoroutines \/ TrSilent \/ StopVictim
 TrSpec == TrInit /\ [][TrNext]_tvars
 HW == HWMark(l)
 Accepted == HWAccepted
